@@ -40,6 +40,9 @@ CHECKS = {
  "C17": dict(level="exploration", technique="differential monitor: xonsh's own parser on formatter input and output (tree equality, COMMENT tokens), idempotence oracle, CLI byte-for-byte monitor",
    text="~12 000 sources per quick run assembled from Python statements in sloppy spacing, command lines in bare/![]/$()/pipe/redirect/chain form, macros, multi-line strings, f-strings, comments, blank-line runs, continuations, 2/4/8-space and tab indents, CRLF, no final newline, plus stdlib statements with perturbed spacing; input and output are parsed context-free and context-aware and compared location-free, COMMENT tokens compared, second pass compared; un-tokenisable files must be rejected by the CLI and left unchanged.",
    note="Sources the xonsh parser rejects are dropped; comment strings are compared after strip(); one risky construct class per source with attribution by neutralised twin.", ref="§2 C17"),
+ "C18": dict(level="exploration", technique="execute-the-completion monitor (recording alias observes the argv of the spliced line) + exception/hang/reconstruction monitor on the command-line analyser",
+   text="Adversarial names (one special character class per name: blanks, tabs, newlines, both quotes, backslashes, every shell metacharacter, leading -/~/#/$, keywords, non-ASCII) as file and as directory, each alone in a scratch directory; for 5 typed prefixes x 8 opening-quote styles the real Completer (path completer only) is asked and every completion offered is spliced in and executed; ~175 000 analyser calls on fuzz texts at every cursor position check no exception, no hang and prefix/suffix reconstruction.",
+   note="p-string completions of directories may omit the trailing separator (Path semantics); prefixes are restricted to text a user can have typed; reconstruction is not demanded across backslash-newlines or for a cursor strictly inside a run of quote characters.", ref="§2 C18"),
 }
 NOT_BUILT = "check not built yet in this session (planned, see DESIGN.md §2); nothing is claimed for it"
 def main():
